@@ -366,7 +366,7 @@ class Engine(ExprMixin, CallMixin, StmtMixin):
         return None
 
     def quantifier(self, is_all, g, p):
-        vars_, guards = [], []
+        vars_, guards, trig_exprs = [], [], []
         saved_env = dict(p.env)
         n_bound = len(self.bound_vars)
         try:
@@ -399,7 +399,19 @@ class Engine(ExprMixin, CallMixin, StmtMixin):
                 p.env[name] = xv
                 p.env["__bv_" + name] = xv
                 for cond in gen.ifs:
+                    if isinstance(cond, ast.Call) and isinstance(cond.func, ast.Name) and cond.func.id == "trig":
+                        trig_exprs.append(cond.args)      # instantiation hint, not a condition: evaluated once all variables are bound
+                        continue
                     guards.append(self.truth(self.ev(cond, p), p))
+            pats = []
+            for args in trig_exprs:
+                terms = []
+                for a in args:
+                    v = self.ev(a, p)
+                    terms.append(v.t if hasattr(v, "t") and v.t is not None else None)
+                if any(t is None for t in terms):
+                    raise ContractError("trig() of a composite value")
+                pats.append(terms[0] if len(terms) == 1 else z3.MultiPattern(*terms))
             gd = z3.And(guards) if guards else z3.BoolVal(True)
             self.guards.append(gd)
             try:
@@ -410,9 +422,10 @@ class Engine(ExprMixin, CallMixin, StmtMixin):
             p.env.clear()
             p.env.update(saved_env)
             del self.bound_vars[n_bound:]
+        qid = "spec:" + "".join(ch if ch.isalnum() or ch in "_[]().,<>=! " else "_" for ch in ast.unparse(g)[:70])     # shows up in solver profiles
         if is_all:
-            return T.sv_bool(z3.ForAll(vars_, z3.Implies(gd, body)))
-        return T.sv_bool(z3.Exists(vars_, z3.And(gd, body)))
+            return T.sv_bool(z3.ForAll(vars_, z3.Implies(gd, body), qid=qid, patterns=pats))
+        return T.sv_bool(z3.Exists(vars_, z3.And(gd, body), qid=qid, patterns=pats))
 
     def key_type(self, p):
         """The key sort of the container class the clause talks about (its `self`, else the first object in scope)."""
@@ -468,12 +481,13 @@ class Engine(ExprMixin, CallMixin, StmtMixin):
                 bound[n] = self.ev_Constant(d, p)
         return bound
 
-    @staticmethod
-    def literal_eq(v, const):
+    def literal_eq(self, v, const):
         if const is None:
             return v.ty == T.NONE
         if v.ty == T.NONE:
             return False
+        if isinstance(const, str):
+            return v.ty == T.STR and const in self.strs and v.t.eq(self.strs[const])
         if isinstance(const, bool):
             return v.ty == T.BOOL and (z3.is_true(v.t) if const else z3.is_false(v.t))
         if isinstance(const, int):
